@@ -393,6 +393,10 @@ Proof.
   apply Nat.eqb_eq in E. subst j. exact Hj.
 Qed.
 
+Lemma tr_begin' unf progs K s h : R unf progs s -> incl K (lst (gl s)) -> head (gl s) = h -> trav unf progs K s [] h.
+Proof. intros H1 H2 <-. apply tr_begin; auto. Qed.
+Lemma tr_next' unf progs K s v c m : trav unf progs K s v (Some c) -> nx (gl s) c = m -> trav unf progs K s (v ++ [c]) m.
+Proof. intros H <-. apply tr_next; auto. Qed.
 Definition tex_progs : list (list op) :=
   [[LockWrite; PushBack 10; PushBack 20; PushFront 5; Begin 0; Next 0; Erase 0; Release];
    [LockRead; Begin 0; Next 0; Deref 0; Next 0; Deref 0; Release]].
@@ -406,14 +410,10 @@ Lemma tex_trav : lst (gl tex_s1) = [3; 1; 2]%nat /\ lst (gl tex_s2) = [3; 2]%nat
   trav false tex_progs [3; 2]%nat tex_s2 [3; 1; 2]%nat None.
 Proof.
   split; [vm_compute; reflexivity|]. split; [vm_compute; reflexivity|].
-  assert (T0 : trav false tex_progs [3; 2]%nat tex_s1 [] (head (gl tex_s1))).
-  { apply tr_begin; [exists tex_sched1; reflexivity|]. intros k Hk. vm_compute. cbn in Hk. tauto. }
-  replace (head (gl tex_s1)) with (Some 3%nat) in T0 by (vm_compute; reflexivity).
-  pose proof (tr_next _ _ _ _ _ _ T0) as T1. replace (nx (gl tex_s1) 3) with (Some 1%nat) in T1 by (vm_compute; reflexivity).
-  cbn [app] in T1.
-  pose proof (trav_run _ _ _ tex_sched2 _ _ _ T1 ltac:(vm_compute; reflexivity)) as T2. fold tex_s2 in T2.
-  pose proof (tr_next _ _ _ _ _ _ T2) as T3. replace (nx (gl tex_s2) 1) with (Some 2%nat) in T3 by (vm_compute; reflexivity).
-  cbn [app] in T3.
-  pose proof (tr_next _ _ _ _ _ _ T3) as T4. replace (nx (gl tex_s2) 2) with (@None nat) in T4 by (vm_compute; reflexivity).
-  exact T4.
+  change [3; 1; 2]%nat with ([3; 1] ++ [2])%nat. eapply tr_next'; [|vm_compute; reflexivity].
+  change [3; 1]%nat with ([3] ++ [1])%nat. eapply tr_next'; [|vm_compute; reflexivity].
+  unfold tex_s2. apply trav_run; [|vm_compute; reflexivity].
+  change [3]%nat with ([] ++ [3])%nat. eapply tr_next'; [|vm_compute; reflexivity].
+  apply tr_begin'; [exists tex_sched1; reflexivity| |vm_compute; reflexivity].
+  intros k Hk. vm_compute. cbn in Hk. tauto.
 Qed.
